@@ -576,6 +576,18 @@ example :
     let r2 := memoLoadUnresolvedIdent f r1.2 fs2 "d/s" "/w/d/s" 1
     r2.1 = some 11 ∧ (fs2 "/w/d/s").map (fun file => f 1 file.content) = some 21 := by decide
 
+/-- counter-witness for the aliasing variant (seeded defect C20-5): `memoLoad` returns a value, so what a
+caller does to it afterwards cannot reach the cache (`run_eq_runSpec` holds whatever the callers do); if the
+cached object itself is handed out and scaled in place (×2 here), the second load of the unchanged file
+comes out scaled twice -/
+example :
+    let f := fun (a : Nat) (c : Nat) => a + c
+    let fs : FS Nat := fun p => if p = "f" then some ⟨some 1, 10⟩ else none
+    let r1 := memoLoadAliased f (· * 2) [] fs "f" "f" 1
+    let r2 := memoLoadAliased f (· * 2) r1.2 fs "f" "f" 1
+    r1.1 = some 22 ∧ r2.1 = some 44 ∧
+      (memoLoad f (fun c => c) (memoLoad f (fun c => c) [] fs "f" "f" 1).2 fs "f" "f" 1).1 = some 11 := by decide
+
 /-! ### text images: separator detection -/
 
 theorem splitOn_ne_nil (d : Char) (t : List Char) : splitOn d t ≠ [] := by
